@@ -73,7 +73,7 @@ class Model:
         return sum(g['npulses'] for g in self.geo)
 
 
-def gen_geometry(rng, m, ground, force_template=None):
+def gen_geometry(rng, m, ground, force_template=None, near_miss=None, length=None, transforms=True):
     """Pick a geometry template; fills m.geo / m.argv_geo.
 
     ground: False for free space; True when z must be >= 0 and wires that
@@ -81,6 +81,8 @@ def gen_geometry(rng, m, ground, force_template=None):
     r = rng.choice([0.0005, 0.001, 0.001, 0.002, 0.005, 0.01])
     h = rng.choice([0.0, 0.0, 3.0, 7.5]) if not ground else rng.choice([4.0, 8.0, 12.5])
     L = rng.choice([5.0, 10.0, 21.414285, 16.0, 5.0, 10.0, 0.5, 1.0, 2.0])   # HF ... UHF sized structures
+    if length:
+        L = length
     n = rng.randrange(4, 11)
     free_t = ['dipole', 'vee', 'tee_free', 'star', 'two_wires', 'tapered',
               'arc', 'helix', 'loop', 'bent3', 'radii2', 'array', 'zigzag', 'mixed', 'array_tail',
@@ -309,7 +311,10 @@ def gen_geometry(rng, m, ground, force_template=None):
     wires = [g for g in m.geo if g['kind'] == 'wire']
     # fuzzy junctions between straight wires: move one joined end by a
     # fraction of the matching tolerance (1e-3 of the shortest segment)
-    if len(wires) >= 2 and all('p1' in g for g in wires) and rng.random() < 0.12:
+    # near_miss = (where, factor): forced by the tolerance floor
+    nm_j = near_miss[1] if near_miss and near_miss[0] == 'junction' else None
+    nm_g = near_miss[1] if near_miss and near_miss[0] == 'ground' else None
+    if len(wires) >= 2 and all('p1' in g for g in wires) and (rng.random() < 0.12 or nm_j):
         import math
         minseg = min(math.dist(g['p1'], g['p2']) / g['nseg'] for g in wires)
         wi = [i for i, x in enumerate(a) if x == '-w']
@@ -322,10 +327,38 @@ def gen_geometry(rng, m, ground, force_template=None):
             if hit and len(wi) == len(wires):
                 parts = a[wi[j] + 1].split(',')
                 pos = 1 + (0 if hit == 'p1' else 3)
-                d = 2e-4 * minseg * rng.choice([1, -1])
+                # mostly inside the tolerance; sometimes a near miss just
+                # outside it (0.9 .. 40 tolerances): the ends then are, and
+                # stay, unconnected - at every frequency and on every path
+                fz = rng.choice([0.2, 0.2, 0.2, 0.9, 1.2, 3.0, 12.0, 40.0])
+                if nm_j:
+                    fz = nm_j
+                d = fz * 1e-3 * minseg * rng.choice([1, -1])
                 parts[pos] = repr(round(float(parts[pos]) + d, 9))
                 a[wi[j] + 1] = ','.join(parts)
-                m.features.append('fuzzy_junction')
+                m.features.append('fuzzy_junction' if fz < 1 else 'near_miss_junction')
+                if fz >= 0.9:
+                    m.exact = False
+                break
+    # near-miss ground contact: an end on the ground plane lifted by a
+    # fraction / a small multiple of the tolerance
+    if ground and wires and all('p1' in g for g in wires) and (rng.random() < 0.1 or nm_g):
+        import math
+        minseg = min(math.dist(g['p1'], g['p2']) / g['nseg'] for g in wires)
+        wi = [i for i, x in enumerate(a) if x == '-w']
+        for j, g in enumerate(wires):
+            end = 'p1' if g['p1'][2] == 0 else 'p2' if g['p2'][2] == 0 else None
+            if end and len(wi) == len(wires):
+                parts = a[wi[j] + 1].split(',')
+                pos = 1 + (0 if end == 'p1' else 3) + 2
+                fz = rng.choice([0.2, 0.2, 0.9, 1.2, 3.0, 12.0, 40.0])
+                if nm_g:
+                    fz = nm_g
+                parts[pos] = repr(round(fz * 1e-3 * minseg, 9))
+                a[wi[j] + 1] = ','.join(parts)
+                m.features.append('fuzzy_ground_contact' if fz < 1 else 'near_miss_ground_contact')
+                if fz >= 0.9:
+                    m.exact = False
                 break
     if len(wires) >= 2 and t not in ('helix_fed', 'arc_fed') and rng.random() < 0.35:
         tags = list(range(1, len(wires) + 1))
@@ -368,7 +401,8 @@ def gen_geometry(rng, m, ground, force_template=None):
     elif wires and rng.random() < 0.08 and wires[0]['nseg'] >= 6:
         a.extend(['--taper-wire', '%d,%d' % (wires[0]['etag'], rng.choice([1, 2, 3]))])
         m.features.append('taper')
-    gen_transforms(rng, m, a, ground, t)
+    if transforms:
+        gen_transforms(rng, m, a, ground, t)
     m.argv_geo = a
 
 
@@ -576,11 +610,12 @@ def gen_loads(rng, m, kinds):
     m.argv_load = a
 
 
-def gen_model(rng, env=None, kinds=None, template=None):
+def gen_model(rng, env=None, kinds=None, template=None, near_miss=None, length=None, transforms=True):
     m = Model()
     if env is None:
         env = rng.choice(['free', 'free', 'ideal', 'ideal', 'real1', 'real2', 'real3', 'real3', 'real4'][:rng.choice([7, 7, 9])])
-    gen_geometry(rng, m, ground=(env != 'free'), force_template=template)
+    gen_geometry(rng, m, ground=(env != 'free'), force_template=template, near_miss=near_miss, length=length,
+                 transforms=transforms)
     gen_env(rng, m, env)
     gen_sources(rng, m)
     if kinds is None:
@@ -923,6 +958,26 @@ def gen_pool(rng, m, k=None):
     cands = [float(repr(round(c, 6))) for c in cands[:max(k, len(cands))]]
     rng.shuffle(cands)
     cands = cands[:5]
+    if rng.random() < 0.15 and not wide:
+        # round numbers, as people type them: band edges and whole MHz next
+        # to fractional neighbours in the same MHz (7.15 -> 7, 14.35 -> 14),
+        # and sometimes typed without a decimal point (an int, not a float)
+        n = max(1, int(round(base * rng.choice([0.7, 1.0, 1.0, 1.3]))))
+        band = [n, n + rng.choice([0.15, 0.35, 0.25, 0.5, 0.5]), n + rng.choice([0.05, 0.1, 0.25, 0.3]),
+                n + 1, n - rng.choice([0.1, 0.25, 0.5])]
+        band = [b for b in band if b > 0.3]
+        head = band[:2]
+        rng.shuffle(head)
+        rest = band[2:]
+        rng.shuffle(rest)
+        cands = (head + rest)[:max(k, 2)]
+        if rng.random() < 0.5:
+            rng.shuffle(cands)
+        cands = [float(repr(round(c, 6))) for c in cands]
+        probes.append('round_frequencies')
+        if rng.random() < 0.5:
+            cands = [int(c) if c == int(c) else c for c in cands]
+            probes.append('int_typed_frequency')
     if rng.random() < 0.2:
         # a near-duplicate of one pool entry: 'unchanged within tolerance'
         # short-cuts only show between frequencies that are almost equal
@@ -1352,7 +1407,7 @@ def gen_cli_task(rng, maxops=8, env=None, kinds=None, model=None, pool=None):
             m = c['model']
             f0 = c['pool'][0]
             steps = rng.choice([2, 2, 3, 4])
-            inc = rng.choice([0.5, 1.0, 0.25, f0 * 0.1, -0.3, f0 * 0.05, -f0 * 0.07])
+            inc = rng.choice([0.5, 1.0, 0.25, f0 * 0.1, -0.3, f0 * 0.05, -f0 * 0.07, -0.5, -0.25, -0.1])
             inc = float(repr(round(inc, 6)))
             if f0 + (steps - 1) * inc <= 0.2:
                 inc = abs(inc)
@@ -1557,6 +1612,11 @@ def floor_plans(base_seed, tier='quick'):
     if tier != 'quick':
         plans.append(big_plan(base_seed * 1000003 + 960010, tier, 'model', floor=True, huge=True))
     plans += sibling_floor_plans(base_seed, tier, reps=2 if tier == 'quick' else 6)
+    plans += fault_floor_plans(base_seed, tier)
+    plans += round_floor_plans(base_seed, tier)
+    plans += mid_floor_plans(base_seed, tier)
+    plans += tolerance_floor_plans(base_seed, tier)
+    plans += regime_floor_plans(base_seed, tier)
     return plans
 
 
@@ -1935,4 +1995,313 @@ def sibling_floor_plans(base_seed, tier='quick', reps=2):
             plans.append(dict(version=1, run_seed=seed + 500, tier=tier, floor=True, config='plain',
                               hist=env_side(rng, False, 'hist'), orac=env_side(rng, False, 'orac'),
                               disk={}, tasks=[cli], schedule=[0] * len(cli['ops'])))
+    return plans
+
+
+# ---------------------------------------------------------------- fault floor
+
+def fault_floor_plans(base_seed, tier='quick'):
+    """Every fault kind of the API alphabet in fixed short worlds: each
+    malformed far / near request, a premature request, an early report, and
+    Ctrl-C at early / middle / late call events of every interruptible
+    operation - over free space and over ground.  The random worlds carry
+    these faults with a few per cent probability each; whether a particular
+    one (say, the near-field request that fails inside its point loop) occurs
+    in a run must not be a matter of luck."""
+    plans = []
+    i = 0
+    cases = []
+    for k in range(7):
+        cases.append(('near_bad%d' % k, [['NEAR', 0], ['OBS_NUM'], ['NEAR_BAD', k]]))
+    for k in range(6):
+        cases.append(('far_bad%d' % k, [['FAR', 0], ['OBS_NUM'], ['FAR_BAD', k]]))
+    cases.append(('premature', [['SET_F', 1], ['FAR', 0, 'x'], ['NEAR', 0, 'x'], ['SET_F', 0], ['COMPUTE']]))
+    cases.append(('early_report', [['NEAR', 0], ['REPORT_EARLY'], ['SET_F', 1], ['REPORT_EARLY'], ['SET_F', 0], ['COMPUTE']]))
+    for opk in ('SET_F', 'COMPUTE', 'FAR', 'NEAR'):
+        for at in (1, 4, 40, 400, 2500):
+            if opk == 'SET_F':
+                ops = [['SET_F', 1, {'interrupt': at}], ['COMPUTE']]
+            elif opk == 'COMPUTE':
+                ops = [['SET_F', 1], ['COMPUTE', {'interrupt': at}]]
+            elif opk == 'FAR':
+                ops = [['FAR', 0, '', {'interrupt': at}]]
+            else:
+                ops = [['NEAR', 0, '', {'interrupt': at}]]
+            cases.append(('interrupt_%s_%d' % (opk, at), ops))
+    # two continuations after the fault: the caller goes on to another
+    # frequency first (nothing well-formed of the same kind in between), or
+    # asks for fields at the present frequency first
+    tail_a = [['SET_F', 1], ['COMPUTE'], ['OBS_NUM'], ['FAR', 1], ['NEAR', 0], ['OBS_NUM'],
+              ['OBS_REPORT', ['far-field', 'near-field']], ['SET_F', 0], ['COMPUTE'], ['OBS_NUM']]
+    tail_b = [['FAR', 0], ['NEAR', 0], ['OBS_NUM'], ['OBS_REPORT', ['far-field', 'near-field']],
+              ['SET_F', 1], ['COMPUTE'], ['NEAR', 0], ['FAR', 1], ['OBS_NUM'], ['OBS_MISC', 3],
+              ['SET_F', 0], ['COMPUTE'], ['FAR', 0], ['OBS_NUM']]
+    for name, mid in cases:
+        for env in ('free', 'ideal'):
+            seed = base_seed * 1000003 + 980000 + i
+            i += 1
+            rng = random.Random(seed)
+            kinds = rng.choice([[], ['impedance'], ['skin_c'], ['insulation']])
+            m = gen_model(rng, env=env, kinds=kinds,
+                          template=rng.choice(['dipole', 'vee', 'two_wires']) if env == 'free'
+                          else rng.choice(['monopole', 'inv_l', 'monopole_ud', 'tee_gnd']))
+            pool, probes = gen_pool(rng, m, k=2)
+            ops = [['COMPUTE']] + [_copy_op(o) for o in mid + tail_a + mid + tail_b]
+            t = dict(kind='api', builder='cli', argv=m.argv(), pool=pool[:2], fars=[gen_far(rng), gen_far(rng)],
+                     nears=[gen_near(rng, m)], ops=ops, template=m.template, env=m.env,
+                     features=sorted(set(m.features + ['fault_floor:' + name])), probes=probes,
+                     npulses=m.min_pulses() + 2 * len(m.geo))
+            plans.append(dict(version=1, run_seed=seed, tier=tier, floor=True, config='plain',
+                              hist=env_side(rng, False, 'hist'), orac=env_side(rng, False, 'orac'),
+                              disk={}, tasks=[t], schedule=[0] * len(ops)))
+    # command-line level: an interrupted / rejected invocation, then the same command line again
+    for j, (kind, at) in enumerate([('interrupt', 30), ('interrupt', 600), ('interrupt', 6000), ('interrupt', 30000),
+                                    ('bad', 0), ('bad', 1), ('bad', 2), ('bad', 3)]):
+        seed = base_seed * 1000003 + 985000 + j
+        rng = random.Random(seed)
+        m = gen_model(rng, env=rng.choice(['free', 'ideal', 'real2']))
+        pool, probes = gen_pool(rng, m, k=2)
+        argv = ['-f', repr(pool[0])] + m.argv() + field_args(rng, m, force=['far-field', 'near-field']) \
+            + ['--output-cmdline', 'ff.txt']
+        inc = float(repr(round(pool[1] - pool[0], 6)))
+        if kind == 'interrupt':
+            first = ['RUN', list(argv), {'interrupt': at}]
+        else:
+            first = ['RUN_BAD', rng.choice(BAD_ARGVS)]
+        ops = [['RUN', list(argv)], first, ['RUN', list(argv)], ['SWEEP', list(argv), inc, 2, rng.randrange(4)],
+               first, ['RUN', list(argv)]]
+        t = dict(kind='cli', ops=[_copy_op(o) for o in ops], template=m.template, env=m.env,
+                 features=sorted(set(m.features + ['fault_floor:cli_' + kind])), probes=probes,
+                 npulses=m.min_pulses() + 2 * len(m.geo), pool=list(pool))
+        plans.append(dict(version=1, run_seed=seed, tier=tier, floor=True, config='plain',
+                          hist=env_side(rng, False, 'hist'), orac=env_side(rng, False, 'orac'),
+                          disk={}, tasks=[t], schedule=[0] * len(ops)))
+    return plans
+
+
+# ------------------------------------------------------- round-number floor
+
+def round_floor_plans(base_seed, tier='quick'):
+    """Frequencies as people type them, in fixed worlds: a whole number of
+    MHz (for constructor-built models typed without a decimal point, i.e. an
+    int), fractional neighbours in the same MHz above it, and the whole
+    number again - on one object, and as a downward sweep that ends on the
+    whole number.  Every frequency-dependent load kind takes part.  Random
+    pools are products of random factors and meet such values only by
+    chance; truncation, rounding and integer typing only show there."""
+    plans = []
+    kinds_cycle = [['rlc'], ['trap'], ['laplace'], ['skin_c'], ['insulation'], ['skin_r', 'impedance'],
+                   ['trap', 'skin_c'], []]
+    for i in range(8 if tier == 'quick' else 16):
+        seed = base_seed * 1000003 + 990000 + i
+        rng = random.Random(seed)
+        direct = i % 2 == 1
+        env = ['free', 'ideal'][(i // 2) % 2]
+        ops = [['COMPUTE'], ['OBS_NUM'], ['SET_F', 1], ['COMPUTE'], ['FAR', 0], ['OBS_NUM'],
+               ['OBS_REPORT', ['far-field']], ['SET_F', 3], ['COMPUTE'], ['OBS_NUM'], ['FAR', 0],
+               ['OBS_REPORT', ['far-field']], ['SET_F', 2], ['COMPUTE'], ['SET_F', 0], ['COMPUTE'], ['OBS_NUM'],
+               ['SET_F', 4], ['COMPUTE'], ['SET_F', 3], ['COMPUTE'], ['OBS_NUM'], ['OBS_BASIC', 13]]
+        if direct:
+            t = gen_direct_task(rng, ground='shared_ideal' if env == 'ideal' else None)
+            if not t['direct']['xloads']:
+                t['direct']['xloads'] = [['rlc', 5.0, 2e-6, 1e-10, 0]]
+            L = 10.0
+        else:
+            m = gen_model(rng, env=env, kinds=kinds_cycle[i % len(kinds_cycle)],
+                          template=rng.choice(['dipole', 'vee']) if env == 'free' else rng.choice(['monopole', 'inv_l']))
+            L = m.length
+            t = dict(kind='api', builder='cli', argv=m.argv(), template=m.template, env=m.env,
+                     features=sorted(set(m.features)), npulses=m.min_pulses() + 2 * len(m.geo))
+        n = max(2, int(round(150.0 / max(L, 1.0))))
+        frac = [0.15, 0.35, 0.5, 0.25][i % 4]
+        t['pool'] = [n if direct else float(n), n + frac, n + 0.5 if frac != 0.5 else n + 0.75, float(n), n - 0.25]
+        t['fars'] = [gen_far(rng)]
+        t['nears'] = []
+        t['ops'] = [_copy_op(o) for o in ops]
+        t['probes'] = ['round_frequencies'] + (['int_typed_frequency'] if direct else [])
+        t['features'] = sorted(set(t['features'] + ['round_floor']))
+        tasks = [t]
+        sched = [0] * len(ops)
+        if not direct:
+            argv = ['-f', repr(n + 0.5)] + m.argv() + field_args(rng, m, force=['far-field']) \
+                + ['--output-cmdline', 'round.txt']
+            whole = ['-f', str(n)] + argv[2:]
+            cops = [['SWEEP', list(argv), -0.25, 3, i % 4], ['RUN', list(whole)], ['SWEEP', list(whole), 0.5, 2, 0],
+                    ['SWEEP', list(argv), -0.5, 2, (i + 1) % 4], ['RUN', list(whole)]]
+            tasks.append(dict(kind='cli', ops=[_copy_op(o) for o in cops], template=m.template, env=m.env,
+                              features=sorted(set(m.features + ['round_floor'])), probes=['round_frequencies'],
+                              npulses=m.min_pulses() + 2 * len(m.geo), pool=[n + 0.5, float(n)]))
+            sched += [1] * len(cops)
+        plans.append(dict(version=1, run_seed=seed, tier=tier, floor=True, config='plain',
+                          hist=env_side(rng, False, 'hist'), orac=env_side(rng, False, 'orac'),
+                          disk={}, tasks=tasks, schedule=sched))
+    return plans
+
+
+# ------------------------------------------------------ mid-size sibling floor
+
+MID_KINDS = ['taper', 'segments', 'radius', 'scale', 'translate', 'rotate', 'load_value', 'voltage',
+             'drop_loads', 'toggle_ground', 'other_ground', 'scale_band', 'move_middle_wire']
+
+
+def mid_model(rng, env):
+    """205..260 pulses: beyond the size at which 'only worth it for larger
+    models' code paths (a cache, a different solver, chunking) begin, small
+    enough that every sibling change can be afforded in every run."""
+    m = Model()
+    ns = rng.randrange(18, 21)
+    k = 11
+    while k * (ns - 1) < 205:
+        k += 1
+    L = rng.choice([1.0, 2.0])
+    r = rng.choice([0.001, 0.002])
+    h = 0.0 if env == 'free' else 3.0
+    a = []
+    for i in range(k):
+        li = L * (1 - 0.01 * i)
+        p1, p2 = (i * L / 4, -li / 2, h), (i * L / 4, li / 2, h)
+        o, v = _wire(ns, p1, p2, r)
+        a += [o, v]
+        m.geo.append(dict(kind='wire', nseg=ns, r=r, tag=None, etag=i + 1,
+                          p1=tuple(float(x) for x in p1), p2=tuple(float(x) for x in p2)))
+        m.radii.append(r)
+    m.template = 'mid_array'
+    m.length = L
+    m.argv_geo = a
+    gen_env(rng, m, env)
+    m.argv_src = ['--excitation-pulse=%d,%d' % (ns // 2, rng.randrange(1, k + 1))]
+    gen_loads(rng, m, ['impedance', 'skin_c'])
+    m.features.append('mid_model')
+    return m
+
+
+def mid_floor_plans(base_seed, tier='quick'):
+    """Every sibling change once on a model of 205..260 pulses, in both
+    orders (base first / sibling first), on live objects in one interpreter
+    and as command lines in successive processes on one machine (only the
+    private directories survive the restarts)."""
+    plans = []
+    for i, how in enumerate(MID_KINDS):
+        seed = base_seed * 1000003 + 995000 + i
+        rng = random.Random(seed)
+        env = 'ideal' if how in ('toggle_ground', 'other_ground') or i % 3 == 2 else 'free'
+        m = mid_model(rng, env)
+        sib = variant_model(rng, m, force=how)
+        f0 = round(150.0 / m.length, 3)
+        pool = [f0, round(f0 * 1.03, 3)]
+        p1 = sibling_pool(sib, pool)
+        pair = [(m, pool), (sib, p1)]
+        if i % 2:
+            pair.reverse()
+        ops = [['COMPUTE'], ['OBS_NUM'], ['FAR', 0], ['OBS_REPORT', ['far-field']]]
+        far = gen_far(rng)
+        tasks = []
+        for mm_, pl in pair:
+            tasks.append(dict(kind='api', builder='cli', argv=mm_.argv(), pool=list(pl), fars=[far], nears=[],
+                              ops=[list(o) for o in ops], template=mm_.template, env=mm_.env,
+                              features=sorted(set(mm_.features)), probes=['mid_model'],
+                              npulses=mm_.min_pulses()))
+        grid = ['--theta=0,30,3', '--phi=0,90,2']
+        cl = [['-f', repr(pl[0])] + mm_.argv() + grid + ['--output-cmdline', 'mid.txt'] for mm_, pl in pair]
+        cops = [['RUN', cl[0]], ['RESTART'], ['RUN', cl[1]], ['RESTART'], ['RUN', cl[0]], ['RUN', cl[1]]]
+        tasks.append(dict(kind='cli', ops=[_copy_op(o) for o in cops], template=m.template, env=m.env,
+                          features=sorted(set(m.features + sib.features)), probes=['mid_model'],
+                          npulses=m.min_pulses() + 2 * len(m.geo), pool=list(pool)))
+        sched = [0] * len(ops) + [1] * len(ops) + [2] * len(cops)
+        plans.append(dict(version=1, run_seed=seed, tier=tier, floor=True, config='plain',
+                          hist=env_side(rng, False, 'hist'), orac=env_side(rng, False, 'orac'),
+                          disk={}, tasks=tasks, schedule=sched))
+    return plans
+
+
+# ------------------------------------------------------------ tolerance floor
+
+def tolerance_floor_plans(base_seed, tier='quick'):
+    """End matching and ground contact are decided with a tolerance (1e-3 of
+    the shortest segment).  Fixed worlds put a wire end at 0.5 .. 40
+    tolerances from its partner / from the ground plane and take one object
+    through frequencies five decades apart, so that any length that scales
+    with the wavelength crosses the gap somewhere in the history: what is
+    connected must not depend on where the object has been."""
+    plans = []
+    i = 0
+    for where, env, tpls in (('junction', 'free', ['vee', 'bent3', 'tee_free']),
+                             ('junction', 'ideal', ['inv_l', 'tee_gnd']),
+                             ('ground', 'ideal', ['monopole', 'inv_l', 'monopole_ud'])):
+        for fz in (0.5, 1.2, 3.0, 12.0, 40.0):
+            seed = base_seed * 1000003 + 997000 + i
+            i += 1
+            rng = random.Random(seed)
+            m = gen_model(rng, env=env, kinds=rng.choice([[], ['impedance'], ['skin_c']]),
+                          template=tpls[i % len(tpls)], near_miss=(where, fz))
+            base = min(max(150.0 / max(m.length, 1.0), 2.0), 900.0)
+            pool = [float(repr(round(base * x, 6))) for x in (1.0, 0.1, 5e-3, 1e-3, 1e-4, 0.03)]
+            if i % 2:
+                pool.reverse()
+            ops = [['COMPUTE'], ['OBS_NUM']]
+            for k in (1, 2, 3, 4, 5, 0, 3):
+                ops += [['SET_F', k], ['COMPUTE'], ['OBS_NUM']]
+            ops += [['FAR', 0], ['OBS_REPORT', ['far-field']], ['OBS_CMDLINE']]
+            t = dict(kind='api', builder='cli', argv=m.argv(), pool=pool, fars=[gen_far(rng)], nears=[],
+                     ops=ops, template=m.template, env=m.env,
+                     features=sorted(set(m.features + ['tolerance_floor'])), probes=[],
+                     npulses=m.min_pulses() + 2 * len(m.geo))
+            argv = ['-f', repr(pool[0])] + m.argv() + ['--output-cmdline', 'tol.txt']
+            inc = float(repr(round(pool[1] - pool[0], 9)))
+            cops = [['SWEEP', list(argv), inc, 2, 0], ['RUN', list(argv)]]
+            c = dict(kind='cli', ops=[_copy_op(o) for o in cops], template=m.template, env=m.env,
+                     features=sorted(set(m.features + ['tolerance_floor'])), probes=[],
+                     npulses=m.min_pulses() + 2 * len(m.geo), pool=pool[:2])
+            plans.append(dict(version=1, run_seed=seed, tier=tier, floor=True, config='plain',
+                              hist=env_side(rng, False, 'hist'), orac=env_side(rng, False, 'orac'),
+                              disk={}, tasks=[t, c], schedule=[0] * len(ops) + [1] * len(cops)))
+    return plans
+
+
+# --------------------------------------------------------------- regime floor
+
+FREE_TEMPLATES = ['dipole', 'vee', 'tee_free', 'star', 'two_wires', 'tapered', 'arc', 'helix', 'loop', 'bent3',
+                  'radii2', 'array', 'zigzag', 'mixed', 'array_tail', 'helix_fed', 'arc_fed', 'seg1_chain']
+GND_TEMPLATES = ['monopole', 'monopole_ud', 'inv_l', 'tee_gnd', 'two_monopoles', 'gnd_star', 'gnd_fan']
+
+
+def regime_floor_plans(base_seed, tier='quick'):
+    """Every geometry template taken, on one object, from electrically tiny
+    (1e-4 of the resonance: badly conditioned matrices, guards, fall-backs)
+    to electrically large (8 times the resonance: thin-wire limits) and back
+    to the resonance; and thickly insulated VHF-sized conductors whose
+    equivalent radius is a visible fraction of the wavelength at the upper
+    frequencies.  The random pools reach these regimes in about one model in
+    eight; here every template does, in every run."""
+    plans = []
+    cyc = [[], ['impedance'], ['skin_c'], ['rlc'], ['insulation'], ['trap'], ['laplace'], ['skin_r']]
+    cases = [('free', t, None) for t in FREE_TEMPLATES] + [('ideal', t, None) for t in GND_TEMPLATES] \
+        + [('real2', 'monopole', None), ('real3', 'inv_l', None)] \
+        + [('free', 'dipole', 0.5), ('free', 'vee', 1.0), ('ideal', 'monopole', 0.5), ('free', 'two_wires', 0.5)]
+    for i, (env, tpl, length) in enumerate(cases):
+        seed = base_seed * 1000003 + 998000 + i
+        rng = random.Random(seed)
+        kinds = ['insulation'] if length else cyc[i % len(cyc)]
+        # the plain template: a per-tag transformation would open the loop
+        m = gen_model(rng, env=env, kinds=kinds, template=tpl, length=length, transforms=False)
+        base = min(max(150.0 / max(m.length, 1.0), 2.0), 900.0)
+        mults = (1.0, 1e-4, 8.0, 1e-3, 0.02, 4.0) if not length else (1.0, 8.0, 0.5, 4.0, 2.0, 6.0)
+        pool = [float(repr(round(base * x, 6))) for x in mults]
+        ops = [['COMPUTE'], ['OBS_NUM']]
+        for k in (1, 0, 2, 0, 3, 4, 5, 0):
+            ops += [['SET_F', k], ['COMPUTE'], ['OBS_NUM']]
+        ops += [['FAR', 0], ['OBS_REPORT', ['far-field']]]
+        t = dict(kind='api', builder='cli', argv=m.argv(), pool=pool, fars=[gen_far(rng)], nears=[],
+                 ops=ops, template=m.template, env=m.env,
+                 features=sorted(set(m.features + ['regime_floor'])), probes=[],
+                 npulses=m.min_pulses() + 2 * len(m.geo))
+        argv = ['-f', repr(pool[1])] + m.argv() + ['--output-cmdline', 'reg.txt']
+        cops = [['SWEEP', list(argv), float(repr(round(pool[0] - pool[1], 9))), 2, i % 4],
+                ['SWEEP', ['-f', repr(pool[2])] + argv[2:], float(repr(round(pool[0] - pool[2], 9))), 2, 0]]
+        c = dict(kind='cli', ops=[_copy_op(o) for o in cops], template=m.template, env=m.env,
+                 features=sorted(set(m.features + ['regime_floor'])), probes=[],
+                 npulses=m.min_pulses() + 2 * len(m.geo), pool=pool[:3])
+        plans.append(dict(version=1, run_seed=seed, tier=tier, floor=True, config='plain',
+                          hist=env_side(rng, False, 'hist'), orac=env_side(rng, False, 'orac'),
+                          disk={}, tasks=[t, c], schedule=[0] * len(ops) + [1] * len(cops)))
     return plans
